@@ -170,10 +170,10 @@ PROPS = {
             "quick": {"hash_checks": 20000, "bdd_representations": 2000, "sdd_representations": 1300, "ddnnf_representations": 300,
                       "semantic_sdd_ops": 8000, "eq_on_equal_functions": 50000, "semantic_ddnnf_compilations": 450,
                       "semantic_ddnnf_conditionings": 2000, "semantic_sdd_compile_cnf": 500,
-                      "untrimmed_nodes_denoting_literal_or_constant": 100},
+                      "untrimmed_nodes_denoting_literal_or_constant": 100, "builder_hash_accessor_checks": 500, "semantic_builders_over_spread_labels": 100},
             "thorough": {"hash_checks": 600000},
         },
-        "rule": "One evaluation = one hash or one semantic-builder operation. (hash) For a function f on <= 7 variables (parity, ite(x,g,!g), threshold, random, CNF-derived) and each prime in {U32_TINY, U32_SMALL, U64_LARGEST} the defining sum over the models of f of the product of create_semantic_hash_map weights is computed from the truth table with the harness's own modular arithmetic and compared with semantic_hash of BDDs under 3 random orders, SDDs under 2 random vtrees and top-down decision-DNNFs under 2 random orders (so all representations agree with each other); the negation must hash to 1 - h; cached_semantic_hash (asked twice, and through a second construction history) must equal it (one prime per builder, S3); hand-built BinarySDD / BddNode values made with the public constructors (also with complemented high edges, which no builder stores) must hash to the defining sum of the function they denote; the hash weights must sum to one. (semantic builders) SemanticSddBuilder<P> is driven through random and/or/negate/condition/exists histories (with templates that leave an untrimmed node denoting a literal and that reach one function along two routes) and compile_cnf, SemanticDecisionNNFBuilder<P> through compile_cnf_topdown and condition: for every prime eq() must be true on every pair of pool members (both polarities, both argument orders) whose oracle truth tables are equal; over U64_LARGEST every returned diagram must have the right truth table, under 32-bit primes a wrong table is a hash collision and only recorded (S4). Non-trivial = function neither constant nor literal; distinct = distinct (function, representation, sub-check) / (function, op, vtree).",
+        "rule": "One evaluation = one hash or one semantic-builder operation. (hash) For a function f on <= 7 variables (parity, ite(x,g,!g), threshold, random, CNF-derived) and each prime in {U32_TINY, U32_SMALL, U64_LARGEST} the defining sum over the models of f of the product of create_semantic_hash_map weights is computed from the truth table with the harness's own modular arithmetic and compared with semantic_hash of BDDs under 3 random orders, SDDs under 2 random vtrees and top-down decision-DNNFs under 2 random orders (so all representations agree with each other); the negation must hash to 1 - h; cached_semantic_hash (asked twice, and through a second construction history) must equal it (one prime per builder, S3); hand-built BinarySDD / BddNode values made with the public constructors (also with complemented high edges, which no builder stores) must hash to the defining sum of the function they denote; the hash weights must sum to one. (semantic builders) SemanticSddBuilder<P> is driven through random and/or/negate/condition/exists histories (with templates that leave an untrimmed node denoting a literal and that reach one function along two routes) and compile_cnf, SemanticDecisionNNFBuilder<P> through compile_cnf_topdown and condition: for every prime eq() must be true on every pair of pool members (both polarities, both argument orders) whose oracle truth tables are equal; over U64_LARGEST every returned diagram must have the right truth table, under 32-bit primes a wrong table is a hash collision and only recorded (S4). Non-trivial = function neither constant nor literal; distinct = distinct (function, representation, sub-check) / (function, op, vtree). The semantic SDD builder's own accessors are checked too (cached_semantic_hash == recomputed == defining sum under the builder's map()), and a wide regime runs the semantic SDD histories over vtrees whose variables are spread over up to 200 labels.",
         "assumptions": ASSUME_COMMON + ["S3/S4: one prime and weight map per builder; collisions under 32-bit primes are recorded, not violations; ite/iff/xor/compose of SemanticSddBuilder are todo!() and excluded as in the property text"],
     },
     "C12": {
